@@ -215,7 +215,7 @@ func Generate(r *rng.R, g GenConfig) *History {
 				st.Edits = append(st.Edits, Edit{K: "pset", Key: "cur", S: fmt.Sprint(r.Intn(9))})
 			}
 			if g.FailUpd && r.Chance(1, 6) {
-				st.Fail = []string{"err", "panic"}[r.Intn(2)]
+				st.Fail = []string{"err", "panic", "size", "sizep", "schema", "schemap"}[r.Intn(6)]
 			}
 			h.Steps = append(h.Steps, st)
 		case 1:
